@@ -8,6 +8,7 @@ import (
 	"math/big"
 	"net"
 	"os"
+	"runtime"
 	"strconv"
 	"strings"
 	"time"
@@ -260,7 +261,18 @@ func runC01(c *Ctx) {
 			// let goroutines started by the replayed calls run BEFORE the node is stopped (stopping cancels their context):
 			// a panic in one of them is what a crash replay is looking for
 			c.Out.Flush()
+			// at least 1.5 s, then until the number of goroutines has been stable for half a second (6 s at most): on a
+			// loaded machine the goroutine that panics may be scheduled late
 			time.Sleep(1500 * time.Millisecond)
+			last, stable := runtime.NumGoroutine(), 0
+			for w := 0; w < 45 && stable < 5; w++ {
+				time.Sleep(100 * time.Millisecond)
+				if g := runtime.NumGoroutine(); g == last {
+					stable++
+				} else {
+					last, stable = g, 0
+				}
+			}
 			if len(live) > 0 {
 				runC01LiveList(c, 0, live)
 			}
